@@ -28,7 +28,7 @@ Inductive errarg :=          (* an `error` handed to Error(err) *)
 | ENilPtr                    (* a nil pointer of type res.Error *)
 | EErr (e : rerr)            (* a *res.Error *)
 | EOther (msg : bytes)       (* any other error, Error() = msg *)
-| ENilIface.                 (* nil interface: ToError dereferences it *)
+| ENilIface.                 (* nil interface *)
 
 Inductive pk :=              (* what recover() sees *)
 | PPtr (e : option rerr)     (* a *res.Error (None = nil pointer) *)
@@ -45,15 +45,15 @@ Definition err_method_not_found := RErr (s2b "system.methodNotFound") (s2b "Meth
 Definition err_access_denied := RErr (s2b "system.accessDenied") (s2b "Access denied") HNil.
 Definition err_invalid_params := RErr (s2b "system.invalidParams") (s2b "Invalid parameters") HNil.
 Definition err_invalid_query := RErr (s2b "system.invalidQuery") (s2b "Invalid query") HNil.
-Definition nil_deref := s2b "runtime error: invalid memory address or nil pointer dereference".
 
-(* ToError; None = a nil *Error comes back; inr = it panics *)
-Definition to_error (e : errarg) : option rerr + pk :=
+(* ToError; None = a nil *Error comes back.  For a nil interface InternalError(nil) calls errString, which
+   recovers the nil dereference of err.Error() *)
+Definition to_error (e : errarg) : option rerr :=
   match e with
-  | ENilPtr => inl None
-  | EErr e => inl (Some e)
-  | EOther msg => inl (Some (internal_err msg))
-  | ENilIface => inr (PMsg nil_deref)
+  | ENilPtr => None
+  | EErr e => Some e
+  | EOther msg => Some (internal_err msg)
+  | ENilIface => Some (internal_err (s2b "panic in Error method"))
   end.
 Definition pk_err (p : pk) : option rerr :=
   match p with
@@ -239,20 +239,25 @@ Definition idx_json (i : Z) : json := JNum (z_dec i).
 Definition after_apply (ap : apply) (k : eres) : eres :=
   match ap with ApFail p => EPanic p | _ => k end.
 
+(* resource.go Event(): reserved names panic.  [create_reserved] = the name "create" is rejected too
+   (current code); false = the code before that fix, which published a create event with a payload *)
+Definition custom_event (create_reserved : bool) (rn name : bytes) (v : hval) : eres :=
+  if beq name n_change then EPanic (PMsg (s2b "res: use ChangeEvent to send change events"))
+  else if create_reserved && beq name n_create then EPanic (PMsg (s2b "res: use CreateEvent to send create events"))
+  else if beq name n_delete then EPanic (PMsg (s2b "res: ""delete"" is a reserved event name"))
+  else if beq name n_add then EPanic (PMsg (s2b "res: use AddEvent to send add events"))
+  else if beq name n_remove then EPanic (PMsg (s2b "res: use RemoveEvent to send remove events"))
+  else if beq name n_patch then EPanic (PMsg (s2b "res: ""patch"" is a reserved event name"))
+  else if beq name n_reaccess then EPanic (PMsg (s2b "res: use ReaccessEvent to send a reaccess event"))
+  else if beq name n_unsubscribe then EPanic (PMsg (s2b "res: ""unsubscribe"" is a reserved event name"))
+  else if beq name n_query then EPanic (PMsg (s2b "res: ""query"" is a reserved event name"))
+  else if negb (valid_part name) then EPanic (PMsg (s2b "res: invalid event name"))
+  else EOk (publish_event (ev_subject rn name) v).
+
 Definition run_event (r : res) (e : evact) : eres :=
   let rn := rs_name r in
   match e with
-  | EvCustom name v =>
-      if beq name n_change then EPanic (PMsg (s2b "res: use ChangeEvent to send change events"))
-      else if beq name n_delete then EPanic (PMsg (s2b "res: ""delete"" is a reserved event name"))
-      else if beq name n_add then EPanic (PMsg (s2b "res: use AddEvent to send add events"))
-      else if beq name n_remove then EPanic (PMsg (s2b "res: use RemoveEvent to send remove events"))
-      else if beq name n_patch then EPanic (PMsg (s2b "res: ""patch"" is a reserved event name"))
-      else if beq name n_reaccess then EPanic (PMsg (s2b "res: use ReaccessEvent to send a reaccess event"))
-      else if beq name n_unsubscribe then EPanic (PMsg (s2b "res: ""unsubscribe"" is a reserved event name"))
-      else if beq name n_query then EPanic (PMsg (s2b "res: ""query"" is a reserved event name"))
-      else if negb (valid_part name) then EPanic (PMsg (s2b "res: invalid event name"))
-      else EOk (publish_event (ev_subject rn name) v)
+  | EvCustom name v => custom_event true rn name v
   | EvChange fields ap =>
       if is_rt_coll (rs_type r) then EPanic (PMsg (s2b "res: change event not allowed on Collections"))
       else match fields with
@@ -351,7 +356,7 @@ Definition reply_json (st : rst) (k : rk) : json + pk :=
   | KResource rid =>
       if is_valid_rid rid then inl (JObj (meta_fields m ++ [(k_resource, ref_json rid)]))
       else inr (PMsg (s2b "res: invalid resource ID: " ++ rid))
-  | KError e => match to_error e with inl e' => inl (ej e' m) | inr p => inr p end
+  | KError e => inl (ej (to_error e) m)
   | KNotFound => inl (ej (Some err_not_found) m)
   | KMethodNotFound => inl (ej (Some err_method_not_found) m)
   | KInvalidParams msg =>
@@ -477,10 +482,7 @@ Definition qstep (c : cfg) (r : res) (qreply : bytes) (st : qst) (a : qaction) :
   | QNotFound => qreply_with qreply st (error_json (Some err_not_found) None)
   | QInvalidQuery msg =>
       qreply_with qreply st (ej (Some (if is_nil msg then err_invalid_query else RErr (s2b "system.invalidQuery") msg HNil)) None)
-  | QError e => match to_error e with
-                | inl e' => qreply_with qreply st (ej e' None)
-                | inr p => QPanic p
-                end
+  | QError e => qreply_with qreply st (ej (to_error e) None)
   | QTimeout d =>
       if (d <? 0)%Z then QPanic (PMsg (s2b "res: negative timeout duration"))
       else QCont st [qpub qreply (PRaw (timeout_bytes d))]
@@ -579,30 +581,18 @@ Definition publications := publications_gen error_json.        (* the code as it
 Definition publications_v0 := publications_gen error_json_v0.  (* before the nil *Error fix *)
 
 (* ---------- well-formedness of the environment (hypotheses of the theorem) ---------- *)
-(* [Event("create", payload)] is accepted by resource.go (create is not in its reserved list) and
-   publishes a create event WITH a payload; excluded here and reported as a finding. *)
-Definition evact_ok (e : evact) : bool :=
-  match e with
-  | EvCustom name v => negb (beq name n_create) || hnil v
-  | _ => true
-  end.
-Definition waction_ok (w : waction) : bool := match w with WEvent e => evact_ok e | _ => true end.
 Definition action_ok (r : req) (a : action) : bool :=
   match a with
   | ATokenEvent _ => valid_part (rcid r)      (* the gateway sent a protocol-conformant cid *)
-  | AW w => waction_ok w
   | _ => true
   end.
-Definition qaction_ok (a : qaction) : bool := match a with QW w => waction_ok w | _ => true end.
 Definition top_ok (t : top) : bool :=
   match t with
   | TStart => true
   | TRequest r d =>
       valid_subject (rreply r) && valid_rname (rs_name (rres r)) &&
       match d with DRun s => forallb (action_ok r) s | _ => true end
-  | TWith r s => valid_rname (rs_name r) && forallb waction_ok s
-  | TQuery r q d =>
-      valid_subject q && valid_rname (rs_name r) &&
-      match d with QRun s => forallb qaction_ok s | _ => true end
+  | TWith r s => valid_rname (rs_name r)
+  | TQuery r q d => valid_subject q && valid_rname (rs_name r)
   | TSvc _ => true
   end.
